@@ -423,6 +423,9 @@ impl Check for ProgCheck {
                 self.check_case(ctx, tape, "scope-arrays")
             });
         }
+        if self.kind == Kind::Prune {
+            self.summary_cycles(ctx);
+        }
         if self.kind == Kind::Reclaim {
             // host values (process command builders) are frame-allocated too: builder calls on a
             // parameter inside a loop, then a run that reports the argv/env/cwd/stdin it received
@@ -452,6 +455,67 @@ impl Check for ProgCheck {
 }
 
 impl ProgCheck {
+    /// Bounded-exhaustive family for the interprocedural summaries: a recursion cycle of k
+    /// functions (k = 2..6, definitions in three orders) in which exactly one member, `far` calls
+    /// away from the entry, reads or assigns a variable of the enclosing scope - silently, so that
+    /// all members have the same effect class - while the caller stores to that variable right
+    /// before the call (read kinds) or calls the entry from an unused declaration (write kind).
+    fn summary_cycles(&self, ctx: &mut ShardCtx) {
+        let mut idx = 0u32;
+        for k in 2usize..=6 {
+            for far in 0..k {
+                for kind in 0..3u8 {
+                    for order in 0..3u8 {
+                        for context in 0..2u8 {
+                            idx += 1;
+                            if idx % ctx.of != ctx.shard {
+                                continue;
+                            }
+                            let mut defs: Vec<String> = Vec::new();
+                            for i in 0..k {
+                                let next = (i + 1) % k;
+                                let touch = if i == far {
+                                    match kind {
+                                        0 => "if to say (mode na \"loud\") start\nreturn 100 add cy".to_string() + &format!("{next}(n minus 1)\nend\n"),
+                                        1 => "make lbl get \"m={mode}\"\nif to say (lbl na \"m=loud\") start\nreturn 100 add cy".to_string() + &format!("{next}(n minus 1)\nend\n"),
+                                        _ => "finished get true\n".to_string(),
+                                    }
+                                } else {
+                                    String::new()
+                                };
+                                defs.push(format!(
+                                    "do cy{i}(n) start\nif to say (n small pass 1) start\nreturn 0\nend\n{touch}return cy{next}(n minus 1)\nend\n"
+                                ));
+                            }
+                            match order {
+                                1 => defs.reverse(),
+                                2 => defs.rotate_left(k / 2),
+                                _ => {}
+                            }
+                            let body = if kind < 2 {
+                                // the store must survive: a member of the cycle reads `mode`
+                                format!("make mode get \"quiet\"\n{}shout(cy0({}))\nmode get \"loud\"\nshout(cy0({}))\n", defs.concat(), 2 * k, 2 * k)
+                            } else {
+                                // the call must survive: a member of the cycle assigns `finished`
+                                format!("make finished get false\n{}make ignored get cy0({})\nshout(finished)\n", defs.concat(), 2 * k)
+                            };
+                            let src = if context == 0 {
+                                body
+                            } else {
+                                format!("do outer() start\n{body}return 0\nend\nshout(outer())\n")
+                            };
+                            ctx.eval();
+                            ctx.nontrivial(source_hash(&src));
+                            ctx.class("summary cycle family (k functions, capture `far` calls from the entry)");
+                            let o = self.check_source(ctx, &src);
+                            ctx.handle("summary-cycles", o);
+                        }
+                    }
+                }
+            }
+        }
+    }
+
     /// Differential oracles on hand-written source (regression inputs without a tape).
     pub fn check_source(&self, _ctx: &mut ShardCtx, src: &str) -> Outcome {
         let mk = |sig: String, what: String| {
